@@ -61,7 +61,23 @@ def conditionally_called(ctx: Ctx, pid: str):
         # allowed besides: "not marked yet", and "dep is not the body this one is nested in" (that one is never a dependent, the
         # test only keeps the loop from rejecting the parent of a branch that is being visited)
         marked = [a for a in ats if a == ("op", "in", dep, ret)]
-        parent = [a for a in ats if pmatch("any(Q_g)", a) is not None and "ready_dependent" in tstr(a) and a not in in_rd]
+        # exactly: some ready-dependent relation of dep ENDS IN the body being visited (the element the worklist loop took, whose
+        # simultaneous_list is iterated).  Without "ends in" every partner that has any nested body would be skipped instead of
+        # being rejected / marked.
+        visited = pmatch("Q_m.simultaneous_list", loops(e)[0][1])
+        visited = visited["m"] if visited else None
+
+        def _is_parent_test(a):
+            ma = pmatch("any(Q_g)", a)
+            if ma is None or ma["g"][0] != "lc" or len(ma["g"][3]) != 1 or visited is None:
+                return False
+            rb, rit, rc = ma["g"][3][0]
+            rb = rb[0] if isinstance(rb, tuple) and rb and isinstance(rb[0], tuple) else rb
+            f = to_formula(ma["g"][2])
+            want_p = f_and(A(("a", rb, "ready_dependent")), A(mk_op("is", ("a", rb, "end"), visited)))
+            return not rc and rit == ("a", dep, "relations") and equivalent(f, want_p) is None
+
+        parent = [a for a in ats if a not in in_rd and _is_parent_test(a)]
         rest = [a for a in ats if a not in in_tr + in_rd + marked + parent]
         want = f_and(*[A(a) for a in in_tr + in_rd], *[f_not(A(a)) for a in marked + parent])
         this = (pmatch("Q_s.add(Q_x)", e.call)["x"] == dep and not rest and len(in_tr) == 1 and len(in_rd) == 1 and equivalent(g, want) is None
